@@ -566,7 +566,7 @@ func suiteSchema16(r *Rng, n int, thorough bool, o *Out) {
 		rel := genRel(r)
 		if r.chance(1, 4) {
 			// adversarial: concatenations coincide
-			pairs := [][4]string{{"ab", "c", "a", "bc"}, {"a", "bc", "ab", "c"}, {"a_b", "c", "a", "b_c"}, {"a", "b_c", "a_b", "c"}, {"a", "b", "a", "b"}, {"a", "", "a", "b"}}
+			pairs := [][4]string{{"ab", "c", "a", "bc"}, {"a", "bc", "ab", "c"}, {"a_b", "c", "a", "b_c"}, {"a", "b_c", "a_b", "c"}, {"a", "b", "a", "b"}, {"a", "", "a", "b"}, {"A", "x", "a", "x"}, {"a", "X", "a", "x"}, {"Item", "peer", "item", "peer"}}
 			p := pairs[r.IntN(len(pairs))]
 			rel.FromType, rel.FromName, rel.ToType, rel.ToName = p[0], p[1], p[2], p[3]
 		}
